@@ -201,13 +201,18 @@ class UnitBuild:
         if not cfg.get("no_canary"):
             self.emit_canary(sig, spec, key, out_impl)
 
-    def emit_synth(self, key: str, name: str, sig: str, body: str, rel: str, line: int, cfg: Optional[dict] = None, note: str = ""):
+    def emit_synth(self, key: str, name: str, sig: str, body: str, rel: str, line: int, cfg: Optional[dict] = None, note: str = "", mode: str = "verify"):
         """engine VA: a synthesized micro-function around real text (an arm body / closure body) with the contract `key`"""
         cfg = cfg or {}
         spec = self.specs.get(key)
         if spec is None:
             raise AnchorError(f"no contract for {key}")
         sig = self.name_return(sig, spec.returns)
+        if mode == "stub":
+            text = f"#[verifier::external_body]\npub {sig}\n{self.clauses(spec)}{{ unimplemented!() }}\n"
+            s, e = self.out(f"// @@FN stub {key}  <- {rel}:{line} (contract verified in another unit)\n" + text)
+            self.emitted.append(Emitted(name, "stub", rel, line, s, e, contract=self.clauses(spec), sha256=_sha(body)))
+            return
         body2, counts = self.rewrite_body(body, cfg)
         body2 = self.inject(body2, spec)
         contract = self.clauses(spec)
